@@ -27,6 +27,7 @@ use crate::val::unhex;
 use agdb::AgdbSerialize;
 use agdb::DbF64;
 use agdb::DbValue;
+use std::cell::RefCell;
 use std::collections::HashMap;
 
 #[derive(Clone, Copy, PartialEq)]
@@ -47,6 +48,10 @@ pub struct CodecStream {
     by_name: HashMap<&'static str, usize>,
     /// drivers that may be picked by the generators (everything but the lossy wrappers)
     regular: Vec<usize>,
+    /// query types (incl. the recursive ones): picked by the C20 generator only
+    query: Vec<usize>,
+    /// cache of `schema_at(k)` per (driver, k)
+    unrolled: RefCell<HashMap<(usize, u32), String>>,
     with_addr: Vec<usize>,
     with_time: Vec<usize>,
     last_enc: Option<LastEnc>,
@@ -101,13 +106,16 @@ impl CodecStream {
         let reg = registry();
         let mut by_name = HashMap::new();
         let mut regular = vec![];
+        let mut query = vec![];
         let mut with_addr = vec![];
         let mut with_time = vec![];
         for (i, d) in reg.iter().enumerate() {
             if by_name.insert(d.name, i).is_some() {
                 panic!("harness bug: duplicate type name {}", d.name);
             }
-            if d.lossy.is_none() {
+            if d.query {
+                query.push(i);
+            } else if d.lossy.is_none() {
                 regular.push(i);
                 if d.schema.contains("ip") || d.schema.contains("sock") {
                     with_addr.push(i);
@@ -117,19 +125,50 @@ impl CodecStream {
                 }
             }
         }
-        CodecStream { prop, reg, by_name, regular, with_addr, with_time, last_enc: None }
+        CodecStream { prop, reg, by_name, regular, query, with_addr, with_time, last_enc: None, unrolled: RefCell::new(HashMap::new()) }
     }
 
-    fn driver(&self, ty: &str, schema: &str) -> Option<&Driver> {
-        let d = &self.reg[*self.by_name.get(ty)?];
-        if d.schema == schema { Some(d) } else { None }
+    /// schema of driver `i` with `QueryCondition` unrolled `k` times
+    fn schema_at(&self, i: usize, k: u32) -> String {
+        let d = &self.reg[i];
+        if !d.recursive {
+            return d.schema.clone();
+        }
+        self.unrolled.borrow_mut().entry((i, k)).or_insert_with(|| (d.schema_at)(k)).clone()
+    }
+
+    /// the driver named `ty` if `schema` is its schema; for the recursive query types: if it is
+    /// the schema unrolled k times for some k <= 64 (returned; 0 for all other types)
+    fn driver(&self, ty: &str, schema: &str) -> Option<(&Driver, u32)> {
+        let i = *self.by_name.get(ty)?;
+        let d = &self.reg[i];
+        if !d.recursive {
+            return if d.schema == schema { Some((d, 0)) } else { None };
+        }
+        for k in 0..=64 {
+            let s = self.schema_at(i, k);
+            if s == schema {
+                return Some((d, k));
+            }
+            if s.len() > schema.len() {
+                break;
+            }
+        }
+        None
     }
 
     // ------------------------------------------------------------ ops
 
     fn op_enc(&mut self, line: &str, ty: &str, schema: &str, val: &str, ctx: &mut Ctx) -> String {
-        let Some(d) = self.driver(ty, schema) else { return bad(ctx) };
+        let Some((d, k)) = self.driver(ty, schema) else { return bad(ctx) };
         let Some(v) = V::parse(val) else { return bad(ctx) };
+        // a value nested deeper than the unrolled schema is not a value of that schema
+        if d.recursive {
+            match (d.depth_of)(&v) {
+                Some(depth) if depth <= k => ctx.bump(&format!("cond-depth:{depth}")),
+                _ => return bad(ctx),
+            }
+        }
         let Some(res) = (d.enc)(&v) else { return bad(ctx) };
         ctx.bump(&format!("ty:{ty}"));
         let c20 = self.prop == Prop::C20;
@@ -190,7 +229,7 @@ impl CodecStream {
     }
 
     fn op_dec(&mut self, line: &str, ty: &str, schema: &str, hx: &str, ctx: &mut Ctx) -> String {
-        let Some(d) = self.driver(ty, schema) else { return bad(ctx) };
+        let Some((d, _)) = self.driver(ty, schema) else { return bad(ctx) };
         let Some(bytes) = unhex(hx) else { return bad(ctx) };
         ctx.bump(&format!("ty:{ty}"));
         let outcome = (d.dec)(&bytes);
@@ -289,20 +328,23 @@ impl CodecStream {
     }
 
     fn gen_case_c20(&mut self, rng: &mut Rng, _ctx: &mut Ctx) -> Vec<String> {
-        let mut d = self.pick_regular(rng);
+        // 15% of the cases: a query type (their schema is unrolled to the value's condition depth)
+        let mut di = if rng.chance(15, 100) { *rng.pick(&self.query) } else { *rng.pick(&self.regular) };
         // ~1% of path / socket values are of the known-lossy kind
-        if d.name == "PathBuf" && rng.chance(1, 100) {
-            d = &self.reg[self.by_name["PathBufLossy"]];
-        } else if d.name == "SocketAddr" && rng.chance(1, 100) {
-            d = &self.reg[self.by_name["SocketAddrFlow"]];
+        if self.reg[di].name == "PathBuf" && rng.chance(1, 100) {
+            di = self.by_name["PathBufLossy"];
+        } else if self.reg[di].name == "SocketAddr" && rng.chance(1, 100) {
+            di = self.by_name["SocketAddrFlow"];
         }
+        let d = &self.reg[di];
         let v = (d.generate)(rng);
-        let mut lines = vec![format!("enc {} {} {}", d.name, d.schema, v.text())];
+        let schema = if d.recursive { self.schema_at(di, (d.depth_of)(&v).unwrap_or(0)) } else { d.schema.clone() };
+        let mut lines = vec![format!("enc {} {} {}", d.name, schema, v.text())];
         if let Some(Ok(e)) = (d.enc)(&v) {
             let mut b = e.bytes;
             let tail = rng.below(9) as usize;
             b.extend(rng.bytes(tail));
-            lines.push(format!("dec {} {} {}", d.name, d.schema, hex(&b)));
+            lines.push(format!("dec {} {} {}", d.name, schema, hex(&b)));
         }
         lines
     }
